@@ -33,6 +33,8 @@ def shards(tier, seed):
     per = 3000 if tier == "quick" else 14000
     for k in range(m):
         out.append({"kind": "grammar", "n": per, "part": k})
+    if tier == "thorough":
+        out.append({"kind": "under_tests"})
     return out
 
 
@@ -292,6 +294,17 @@ def run_shard(spec):
     from lqv.mon.contracts import Monitor, ContractRefuted
     import liquer.parser as P
 
+    if spec.get("kind") == "under_tests":
+        from lqv import undertests
+
+        r = undertests.run("C02", spec["scratch"])
+        if r is None:
+            return {"evaluations": 0, "inconclusive": ["test-suite run with contracts did not finish"]}
+        v = [{"sig": "C02|under the repository's tests|" + (x["witness"] or {}).get("sig", "?"),
+              "what": "contract refuted while the repository's own tests ran: %r" % (x["witness"],),
+              "witness": {"text": (x["witness"] or {}).get("text")}} for x in r["records"][:5]]
+        return {"evaluations": r["counts"].get("parse.canonical_fixed_point", 0), "violations": v,
+                "counters": {"contract_evals_under_repo_tests": r["counts"].get("parse.canonical_fixed_point", 0)}}
     mon = Monitor("raise")
     accepted = {"n": 0}
     nontrivial = set()
